@@ -348,6 +348,9 @@ func (sfd *StatusFileData) UpdateFullStatus(filename string, statusFunc func(*St
 // UpdateFullStatus atomically updates the whole status record.  Changes should be made in the callback function.
 // Errors are logged rather than returned.
 func (bwu *BaseWorkUnit) UpdateFullStatus(statusFunc func(*StatusFileData)) {
+	if verifIsDead(bwu.w) {
+		return
+	}
 	bwu.statusLock.Lock()
 	defer bwu.statusLock.Unlock()
 
@@ -376,6 +379,9 @@ func (sfd *StatusFileData) UpdateBasicStatus(filename string, state int, detail 
 // UpdateBasicStatus atomically updates key fields in the status metadata file.  Errors are logged rather than returned.
 // Passing -1 as stdoutSize leaves it unchanged.
 func (bwu *BaseWorkUnit) UpdateBasicStatus(state int, detail string, stdoutSize int64) {
+	if verifIsDead(bwu.w) {
+		return
+	}
 	bwu.statusLock.Lock()
 	defer bwu.statusLock.Unlock()
 
